@@ -10,13 +10,16 @@ fn table() -> Vec<(&'static str, RunFn, ReplayFn, &'static str)> {
         ("C03", vh::c03::run, vh::c03::replay, vh::c03::RULE),
         ("C04", vh::c04::run, vh::c04::replay, vh::c04::RULE),
         ("C05", vh::c05::run, vh::c05::replay, vh::c05::RULE),
+        ("C06", vh::c06::run, vh::c06::replay, vh::c06::RULE),
         ("C07", vh::c07::run, vh::c07::replay, vh::c07::RULE),
         ("C08", vh::c08::run, vh::c08::replay, vh::c08::RULE),
         ("C10", vh::c10::run, vh::c10::replay, vh::c10::RULE),
+        ("C11", vh::c11::run, vh::c11::replay, vh::c11::RULE),
         ("C13", vh::c13::run, vh::c13::replay, vh::c13::RULE),
         ("C14", vh::c14::run, vh::c14::replay, vh::c14::RULE),
         ("C15", vh::c15::run, vh::c15::replay, vh::c15::RULE),
         ("C16", vh::c16::run, vh::c16::replay, vh::c16::RULE),
+        ("C17", vh::c17::run, vh::c17::replay, vh::c17::RULE),
         ("C18", vh::c18::run, vh::c18::replay, vh::c18::RULE),
     ]
 }
